@@ -62,6 +62,23 @@ theorem C02_mux_delivery_via_tagmap_kafka (s : St) (t rid : Nat) :
     · intro e; subst e; rfl
     · intro h; injection h with h'; exact h'.symm
 
+/-- an iteration of the send loop delivers nothing to a request -/
+theorem C02_mux_send_delivers_nothing (s : St) : (stepSend s).2.delivered = [] := by
+  unfold stepSend
+  split
+  · rfl
+  · rfl
+  · rfl
+  · simp only
+    split
+    · rfl
+    · split
+      · rfl
+      · split
+        · split <;> rfl
+        · rfl
+        · rfl
+
 /-- no other step of the transport delivers anything to a request -/
 theorem C02_mux_only_process_delivers (fl : Flavour) (max : Nat) (s : St) (op : Op)
     (h : ∀ mt t, op ≠ .process mt t) : (stepOp fl max s op).2.delivered = [] := by
@@ -93,20 +110,22 @@ theorem C02_mux_only_process_delivers (fl : Flavour) (max : Nat) (s : St) (op : 
       · rfl
   | send =>
     simp only [stepOp]
-    unfold stepSend
     split
     · rfl
+    · exact C02_mux_send_delivers_nothing s
+  | wbegin =>
+    simp only [stepOp, stepWBegin]
+    split
     · rfl
-    · rfl
-    · simp only
-      split
+    · split
       · rfl
-      · split
-        · rfl
-        · split
-          · split <;> rfl
-          · rfl
-          · rfl
+      · exact C02_mux_send_delivers_nothing s
+  | wend =>
+    simp only [stepOp, stepWEnd]
+    split <;> rfl
+  | quiet =>
+    simp only [stepOp, stepQuiet]
+    split <;> rfl
 
 /-- **History level.**  For every pool size ≥ 2 and every legal sequence of transport steps:
     whenever a step processing a peer frame on tag `t` delivers to request `rid`, and a request
